@@ -68,7 +68,7 @@ fn first_atom_diff(a: &[Atom], b: &[Atom]) -> String {
 
 /// the property on the implementation for one note (alone, all routes, both extension settings)
 pub fn check_doc(key: &str, text: &str) -> Option<String> {
-    let dir = Key::from_file_name(key).parent();
+    let dir = crate::oracle::md::dir_of(key);
     let input = md::atoms(text, &dir);
     let mut st = HashMap::new();
     st.insert(key.to_string(), text.to_string());
@@ -176,7 +176,7 @@ pub fn run(ctx: &Ctx, model: &mut Model, rep: &mut Report) {
         if ctx.thorough || i % 3 == 0 {
             let h = History { ext: if i % 2 == 0 { "".into() } else { ".md".into() }, import: vec![(key.clone(), text.clone())], steps: vec![] };
             if let Some(reply) = hist::model_reply_parts(model, &h, &["md"]) {
-                let dir = Key::from_file_name(&key).parent();
+                let dir = crate::oracle::md::dir_of(&key);
                 let m = hist::model_md(&reply, 0);
                 let real = format_single(&key, &text, &h.ext);
                 match (m.first(), real) {
@@ -208,7 +208,7 @@ pub fn run(ctx: &Ctx, model: &mut Model, rep: &mut Report) {
         rep.case(&format!("{:?}", h.import), h.import.len() >= 2);
         let Ok(exported) = dump::catch(|| Graph::import(&st, MarkdownOptions { refs_extension: h.ext.clone() }).export()) else { continue };
         for (k, t) in &h.import {
-            let dir = Key::from_file_name(k).parent();
+            let dir = crate::oracle::md::dir_of(k);
             let out = exported.get(&Key::from_file_name(k).to_string()).cloned().unwrap_or_default();
             let (a, b) = (md::atoms(t, &dir), md::atoms(&out, &dir));
             if a != b {
